@@ -1,2 +1,85 @@
-import Gopki.Model.Db
-import Gopki.Model.Hash
+import Gopki.Generated.Facts
+import Gopki.Model.V1
+import Gopki.Model.Generator
+import Gopki.Model.Pkcs8
+/-! # C05 — generated keys and signature identifiers match the configured algorithms
+
+The quantifier of C05 is a finite table (14 key algorithm names × 8 signature algorithm names and
+the defaults).  The tables below are **regenerated from the source on every run**
+(`Gopki.Generated.Facts`: go/ast extraction joined with an exhaustive tabulation of `cert.keyTypes`,
+`cert.curves`, `cert.curveNameOids`, `namedCurveFromOID`, `resolveAlg`, `sigAlgOids` and the RSA
+bit-size switch through the verif hooks), so every theorem here is a statement about what the
+running code does on its whole domain, re-checked by the kernel whenever the code changes. -/
+namespace C05
+
+/-- the documentation's table: name ↦ RSA modulus length or named-curve OID -/
+def documented : List (String × (Nat ⊕ List Nat)) :=
+  [("RSA-1024", .inl 1024), ("RSA-2048", .inl 2048), ("RSA-4096", .inl 4096), ("RSA-8192", .inl 8192),
+   ("P-224", .inr [1,3,132,0,33]), ("P-256", .inr [1,2,840,10045,3,1,7]), ("P-384", .inr [1,3,132,0,34]), ("P-521", .inr [1,3,132,0,35]),
+   ("brainpoolP256r1", .inr [1,3,36,3,3,2,8,1,1,7]), ("brainpoolP384r1", .inr [1,3,36,3,3,2,8,1,1,11]), ("brainpoolP512r1", .inr [1,3,36,3,3,2,8,1,1,13]),
+   ("brainpoolP256t1", .inr [1,3,36,3,3,2,8,1,1,8]), ("brainpoolP384t1", .inr [1,3,36,3,3,2,8,1,1,12]), ("brainpoolP512t1", .inr [1,3,36,3,3,2,8,1,1,14])]
+
+/-- what the code generates for a row: modulus length or curve OID -/
+def rowKey (r : Facts.KeyRow) : Nat ⊕ List Nat := if r.keyType = 0 then .inl r.rsaBits else .inr r.curveOid
+
+/-- **C05 (keys)**: every key algorithm name of the configuration language generates exactly the
+    documented modulus length or named curve, and `namedCurveFromOID` maps the curve's OID back to the
+    same curve (so SubjectPublicKeyInfo names the curve the key is on). -/
+theorem C05_key_table :
+    Facts.keyRows.length = 14 ∧
+    (∀ r ∈ Facts.keyRows, r.known = true ∧ documented.lookup r.name = some (rowKey r) ∧ (r.keyType = 1 → r.backName = r.curveName)) := by
+  decide
+
+/-- every documented name is a key of the code's table -/
+theorem C05_key_names_complete : ∀ d ∈ documented, ∃ r ∈ Facts.keyRows, r.name = d.1 := by decide
+
+/-- the documentation's signature algorithm names ↦ OID and the key type the signing key must have -/
+def documentedSig : List (String × List Nat × Nat) :=
+  [("RSAwithSHA1", [1,2,840,113549,1,1,5], 0), ("RSAwithSHA256", [1,2,840,113549,1,1,11], 0), ("RSAwithSHA384", [1,2,840,113549,1,1,12], 0),
+   ("RSAwithSHA512", [1,2,840,113549,1,1,13], 0), ("ECDSAwithSHA1", [1,2,840,10045,4,1], 1), ("ECDSAwithSHA256", [1,2,840,10045,4,3,2], 1),
+   ("ECDSAwithSHA384", [1,2,840,10045,4,3,3], 1), ("ECDSAwithSHA512", [1,2,840,10045,4,3,4], 1)]
+
+/-- **C05 (signature identifiers)**: for every signature algorithm name the inner (`sigAlgOids`) and
+    outer (`resolveAlg`) identifier are the documented OID, and the key type demanded is the scheme's. -/
+theorem C05_sig_table :
+    Facts.sigRows.length = 8 ∧
+    (∀ r ∈ Facts.sigRows, r.err = false ∧ r.oid = r.mapOid ∧ documentedSig.lookup r.name = some (r.oid, r.keyType)) := by
+  decide
+
+/-- out of range algorithm indices are an error, never a default -/
+theorem C05_sig_out_of_range : ∀ r ∈ Facts.sigIndexRows, r.index ≥ 8 → r.err = true := by decide
+
+/-- **C05 (defaults)**: the default key is P-256 (one of the two documented defaults), the default
+    signature algorithm is SHA-256 with the scheme of the entity's key type. -/
+theorem C05_defaults :
+    (Facts.keyIndexRows.find? (·.index = Facts.defaultKeyAlgorithm)).map (·.curveOid) = some [1,2,840,10045,3,1,7] ∧
+    (Facts.sigIndexRows.find? (·.index = Facts.defaultSigEc)).map (fun r => (r.hash, r.keyType)) = some ("SHA-256", 1) ∧
+    (Facts.sigIndexRows.find? (·.index = Facts.defaultSigRsa)).map (fun r => (r.hash, r.keyType)) = some ("SHA-256", 0) := by
+  decide
+
+/-! ### the hand-written model tables are the regenerated ones (tie) -/
+
+theorem model_keyAlgorithms_eq_facts :
+    ∀ r ∈ Facts.keyRows, V1.keyAlgorithms.lookup r.name = some r.index := by decide
+theorem model_sigAlgorithms_eq_facts :
+    ∀ r ∈ Facts.sigRows, V1.sigAlgorithms.lookup r.name = some r.index ∧ Gen.sigAlgTable[r.index]? = some (r.oid, r.keyType) := by decide
+theorem model_defaults_eq_facts :
+    V1.defaultKeyAlgorithm = Facts.defaultKeyAlgorithm ∧ V1.defaultSigEc = Facts.defaultSigEc ∧ V1.defaultSigRsa = Facts.defaultSigRsa ∧
+    Facts.defaultValidityYears = 5 ∧ Facts.dateForm = "2006-01-02" ∧ Facts.binaryPrefix = V1.binaryPrefix ∧ Facts.emptyPrefix = V1.emptyPrefix ∧
+    Facts.nullPrefix = V1.nullPrefix ∧ Facts.hashPrefix = "#HASH:" ∧ Facts.snMaxBits = 159 ∧ Facts.snMaxIsPow2 = true := by decide
+set_option maxRecDepth 4000 in
+theorem model_curves_eq_facts :
+    ∀ r ∈ Facts.keyIndexRows, r.keyType = 1 → r.known = true →
+      (Pkcs8.namedCurveFromOID r.curveOid).map (fun c => (c.name, c.orderHex)) = some (r.curveName, r.orderHex) := by decide
+theorem model_attribute_names_eq_facts : Config.attributeTypeNames = Facts.attributeTypeNames := by decide
+theorem model_eku_names_eq_facts : V1.extKeyUsageNames = Facts.extKeyUsageNames ∧ V1.keyUsageMasks = Facts.keyUsageMasks := by decide
+theorem model_ext_oids_eq_facts :
+    Facts.extensionOids = [Cert.oidSubjectKeyId, Cert.oidKeyUsage, Cert.oidExtendedKeyUsage, Cert.oidAuthorityKeyId, Cert.oidBasicConstraints,
+      Cert.oidSubjectAltName, Cert.oidCertificatePolicies, [2,5,29,30], [2,5,29,31], Cert.oidAuthorityInfoAccess, [2,5,29,20], Cert.oidAdmission, Cert.oidOcspNoCheck] ∧
+    Facts.oidRsaEncryption = Gen.oidRsaEncryption ∧ Facts.oidEcPublicKey = Gen.oidEcPublicKey ∧ Facts.ocspNoCheckValue = [5, 0] := by decide
+/-- GeneralName identifier octets: `marshal` of the four kinds and v1 `convert` of the four schema kinds -/
+theorem model_general_name_tags_eq_facts :
+    Facts.generalNameTags = [("rfc822", 0x81), ("dns", 0x82), ("uri", 0x86), ("ip", 0x87)] ∧
+    Facts.generalNameConvert = [("ip", 0x87), ("dns", 0x82), ("mail", 0x81), ("url", 0x86)] := by decide
+
+end C05
